@@ -108,7 +108,7 @@ func (i *Interp) poolGet(fr *frame, p *value) value {
 		nb := make([]value, 0, len(bag)-1)
 		nb = append(nb, bag[:k]...)
 		nb = append(nb, bag[k+1:]...)
-		i.write(bagc, nb)
+		i.rawWrite(bagc, nb)
 		if i.threads != nil {
 			i.threads.acquire(i, poolKey{p, x})
 		}
@@ -141,7 +141,7 @@ func (i *Interp) poolPut(p *value, x value) {
 	if i.threads != nil {
 		i.threads.release(i, poolKey{p, x})
 	}
-	i.write(bagc, nb)
+	i.rawWrite(bagc, nb)
 	if i.threads != nil {
 		i.threads.syncPoint(i, "pool.Put")
 	}
@@ -294,4 +294,10 @@ func (i *Interp) goStmt(fr *frame, instr *ssa.Go, fn value, args []value) {
 		i.unsupported("go statement outside a threaded harness")
 	}
 	i.threads.spawn(i, fr, instr, fn, args)
+}
+
+// rawWrite updates internal state of a synchronisation object (logged for rollback, not race-tracked).
+func (i *Interp) rawWrite(addr *value, v value) {
+	i.undo = append(i.undo, undoEntry{addr: addr, old: *addr})
+	*addr = v
 }
